@@ -31,7 +31,7 @@ func ruleFOLD(c *Ctx, r *Report) {
 	} else {
 		r.ok(rule, "lookup", c.instrPos(lk), "b.RenderFNs[e.Op]")
 	}
-	paths, complete := c.enumPaths(fn, 20000)
+	paths, complete := c.enumPathsInl(fn, 20000, c.serKeep()...)
 	if !complete {
 		r.bad(rule, "paths", c.pos(fn.Pos()), "too many paths")
 		return
@@ -155,24 +155,57 @@ func ruleFOLD(c *Ctx, r *Report) {
 func (c *Ctx) foldSerialiser(r *Report, ser, render *ssa.Function, mode string) {
 	const rule = "FOLD"
 	cases := map[string][]string{}
-	for _, b := range ser.Blocks {
+	// path-based with the serialiser's own helpers read in place: per dynamic type, the sequence of calls of
+	// the renderer / the serialiser itself on the longest path; every other path of that type must be a
+	// prefix of it (error returns stop early)
+	_ = c.driverRoles()
+	paths, _ := c.enumPathsInl(ser, 20000, c.serKeep()...)
+	inconsistent := map[string]bool{}
+	allSeqs := map[string][][]string{}
+	for _, p := range paths {
 		typ := ""
-		for _, a := range c.domAtoms(b) {
+		for _, a := range p.Atoms {
 			if a.Kind == "type" && a.Pos && a.Subj == "$1" {
 				typ = a.Val
 			}
 		}
-		for _, in := range b.Instrs {
-			if call, ok := in.(*ssa.Call); ok {
-				sc := call.Call.StaticCallee()
-				if sc == render || sc == ser {
-					cases[typ] = append(cases[typ], fnName(sc)+"("+c.key(call.Call.Args[1], nil)+")")
-				} else if sc != nil && sc.Signature.Recv() != nil && fnPkgPath(sc) == pkgDriver && len(call.Call.Args) == 2 && c.calls(sc, ser) {
-					// a helper method of the driver that wraps the serialiser (e.g. for an unbounded range end)
-					cases[typ] = append(cases[typ], fnName(sc)+"("+c.key(call.Call.Args[1], nil)+")")
-				}
+		var seq []string
+		for _, pc := range p.Calls {
+			call := pc.Call
+			sc := call.Call.StaticCallee()
+			if len(pc.Args) < 2 {
+				continue
+			}
+			if sc == render || sc == ser {
+				seq = append(seq, fnName(sc)+"("+pc.Args[1]+")")
+			} else if sc != nil && sc.Signature.Recv() != nil && fnPkgPath(sc) == pkgDriver && len(call.Call.Args) == 2 && c.calls(sc, ser) && !c.wasInlined(p, call) {
+				// a helper method of the driver that wraps the serialiser (e.g. for an unbounded range end)
+				seq = append(seq, fnName(sc)+"("+pc.Args[1]+")")
 			}
 		}
+		allSeqs[typ] = append(allSeqs[typ], seq)
+		if len(seq) > len(cases[typ]) {
+			cases[typ] = seq
+		}
+	}
+	// order-preserving: every path's sequence must be a subsequence of the longest one of its type (an
+	// error return stops early, a helper may answer for one operand without calling back)
+	for typ, seqs := range allSeqs {
+		long := cases[typ]
+		for _, short := range seqs {
+			k := 0
+			for _, x := range long {
+				if k < len(short) && short[k] == x {
+					k++
+				}
+			}
+			if k != len(short) {
+				inconsistent[typ] = true
+			}
+		}
+	}
+	for typ := range inconsistent {
+		cases[typ] = append(cases[typ], "(paths disagree)")
 	}
 	check := func(typ string, want func([]string) bool, desc string) {
 		key := mode + "|serialiser|" + typ
@@ -197,6 +230,17 @@ func (c *Ctx) foldSerialiser(r *Report, ser, render *ssa.Function, mode string) 
 	// list elements: on every cycle of the element loop that continues, the element's rendering is
 	// appended to what is joined (no element is skipped)
 	cps, _ := c.cyclePaths(ser)
+	// the element loop may sit in a helper method of the serialiser
+	for _, b := range ser.Blocks {
+		for _, in := range b.Instrs {
+			if call, ok := in.(*ssa.Call); ok {
+				if h := call.Call.StaticCallee(); h != nil && h != ser && h != render && fnPkgPath(h) == pkgDriver && len(h.Blocks) > 0 && c.calls(h, render) {
+					more, _ := c.cyclePaths(h)
+					cps = append(cps, more...)
+				}
+			}
+		}
+	}
 	n := 0
 	for _, cp := range cps {
 		rendered, appended := false, false
@@ -293,7 +337,7 @@ func ruleTABLEKEYS(c *Ctx, r *Report) {
 		if e := pt.Shared.byKey()[op]; e != nil {
 			r.bad(rule, "Shared|"+op, c.instrPos(e.Pos), "driver.Shared registers a render function for "+op+": ToPostgres no longer fails on fuzzy/boost queries, it silently drops the operator")
 		} else {
-			r.ok(rule, "Shared|"+op, c.pos(pt.Shared.Global.Pos()), "absent")
+			r.ok(rule, "Shared|"+op, pt.Shared.where(c), "absent")
 		}
 		if e := pt.Eff[op]; e != nil {
 			r.bad(rule, "postgres|"+op, c.instrPos(e.Pos), "the postgres driver registers a render function for "+op)
